@@ -66,6 +66,9 @@ def main(argv):
     nprogs = 5
     progs = [gen_prog.gen_program(ck.rng, size=ck.rng.randrange(3, 8))[0] for _ in range(nprogs)]
     progs[0] = "s = 'é😀\\u2028'\nprint(s)\n"
+    # raw line-separator-like characters inside string literals (the file is not to be re-split), and a CRLF file
+    progs[1] = "s = 'a\u2028b\x0cc\x1cd\x85e\u2029f'\nt = \'\'\'x\u2028y\x0bz\x1d\x1e\'\'\'\nprint(ascii(s), ascii(t))\n"
+    progs[2] = "x = 1\r\nif x:\r\n    print('crlf', x)\r\n"
     n = 140 if ck.tier == "quick" else 3000
     invs = [gen_invocation(ck.rng, nprogs) for _ in range(n)]
     results = par.pmap(run_cli, [(inv, progs[inv["prog"]]) for inv in invs], procs=16, chunksize=2)
